@@ -230,6 +230,91 @@ func ruleWriteEverything(r *Run, rule string) {
 		return true
 	})
 	r.Check(rule, "writeEverything:walks-plan", fn.Decl.Pos(), walks, "writeEverything must range over walk.Plan(plan) so that every object of the plan is visited")
+	// round-4 seed C04-7: nothing the walk yields is passed over. What recovery repaired in memory (a Block, Sequence or
+	// Action stored Running and reset to NotStarted by fixPlan) is made durable only here when the plan goes straight to End,
+	// so "still looks as submitted" is no reason to leave an object out: every iteration of the loop over walk.Plan hands its
+	// item on — appends it, passes it to a function of the package, or writes it.
+	if walks {
+		badSkip := ""
+		var skipPos token.Pos = fn.Decl.Pos()
+		iters := 0
+		all := append(append([]Path{}, paths...), fl.Truncated()...)
+		for i := range all {
+			p := &all[i]
+			for j, h := range p.Ev {
+				if h.Kind != EvRange || !h.Taken {
+					continue
+				}
+				rs, _ := h.Clause.(*ast.RangeStmt)
+				if rs == nil {
+					continue
+				}
+				c, isCall := ast.Unparen(rs.X).(*ast.CallExpr)
+				if !isCall {
+					continue
+				}
+				if f, ok := calleeFunc(info, c); !ok || FuncKey(f) != "workflow/utils/walk.Plan" {
+					continue
+				}
+				var item types.Object
+				if rs.Key != nil {
+					item = ObjOf(info, rs.Key) // range-over-func with one value: it is the Key
+				}
+				if rs.Value != nil {
+					item = ObjOf(info, rs.Value)
+				}
+				end := -1
+				for x := j + 1; x < len(p.Ev); x++ {
+					if p.Ev[x].Kind == EvRange && p.Ev[x].Pos == h.Pos {
+						end = x
+						break
+					}
+				}
+				if end < 0 || item == nil {
+					continue
+				}
+				iters++
+				used := false
+				guard := ""
+				for x := j + 1; x < end; x++ {
+					e := p.Ev[x]
+					switch e.Kind {
+					case EvBranch:
+						if e.Cond != nil {
+							guard = ExprStr(e.Cond)
+						}
+					case EvAssign:
+						for _, rh := range e.Rhs {
+							if ce, ok := ast.Unparen(rh).(*ast.CallExpr); ok {
+								if id, ok := ce.Fun.(*ast.Ident); ok && id.Name == "append" && mentionsObj(info, ce, item) {
+									used = true
+								}
+							}
+						}
+					case EvCall:
+						if _, isUpd := isUpdaterCall(e); isUpd {
+							used = true
+						}
+						if e.Call != nil && strings.HasPrefix(CalleeKey(e), pkgSM+".") {
+							for _, a := range e.Call.Args {
+								if mentionsObj(info, a, item) {
+									used = true
+								}
+							}
+						}
+					}
+				}
+				if !used && badSkip == "" {
+					badSkip, skipPos = "an object the walk yields is passed over by "+ShortFn(wk)+" (last test: "+guard+"): what recovery repaired in memory only — an object stored Running and reset to NotStarted — is never written, the ended plan keeps Running objects in the store for ever", h.Pos
+				}
+			}
+		}
+		if iters == 0 {
+			r.Unresolved(rule, "iterations of the loop over walk.Plan in "+ShortFn(wk))
+		} else {
+			r.Check(rule, "writeEverything:no-item-passed-over", skipPos, badSkip == "", "%s", orOK(badSkip, "every item of the walk is handed on"))
+		}
+	}
 	kinds := objectKinds(r.P)
 	if len(kinds) < 5 {
 		r.Unresolved(rule, "workflow.ObjectType constants")
